@@ -19,8 +19,16 @@ Definition add_at (d : list N) (i : N) (y : N) : list N := upd d (N.to_nat i) (t
 Definition from_version (v : nat) : cq :=
   {| clen := 0; cdata := repeat 0 (N.to_nat (max_bytes v * compact_alloc_mul)) |}.
 
+(* length l <= k, without computing the length of a long buffer *)
+Fixpoint len_le (l : list N) (k : nat) : bool :=
+  match l, k with
+  | [], _ => true
+  | _ :: _, O => false
+  | _ :: t, S k' => len_le t k'
+  end.
+
 Definition increase_len (c : cq) (data_length : N) : cq :=
-  if dlen c <=? data_length / 8
+  if len_le (cdata c) (N.to_nat (data_length / 8))
   then {| clen := clen c; cdata := cdata c ++ repeat 0 (N.to_nat (data_length / 8 + 1 - dlen c)) |}
   else c.
 
